@@ -94,6 +94,8 @@ def oracle(ctx, name, case, obs, check_next=True):
                     ctx.report([name, "isr_not_set", lab], f"{name}: {lab} fired but ISR={isr2:#x}", {"case": fmt(case), "op": op})
             if (isr2 & ~3) != (pisr & ~3):
                 ctx.report([name, "isr_other_bits"], f"{name}: ISR bits other than MTI/STI changed {pisr:#x}->{isr2:#x}", {"case": fmt(case), "op": op})
+        if kind == "z" and prev is not None and (m2, s2) != prev[:2]:
+            ctx.report([name, "snapshot_restore_moves_timer_target"], f"{name}: save + load moved the timer targets {prev[:2]} -> {(m2, s2)}", {"case": fmt(case), "op": op})
         prev = (m2, s2, isr2)
 
 
@@ -176,6 +178,37 @@ def run(ctx):
                 else:
                     oracle(ctx, nm, case, outs[nm][i], check_next=True)
         ctx.traces += 1
+    # snapshot-restore points through PCE500Emulator.save_snapshot / load_snapshot (targets in the future, on the current cycle
+    # and in the past - a boundary that is pending while ticking is suppressed): the restored machine keeps the targets, and
+    # the clauses above are evaluated on what it does next
+    zl = []
+    for _ in range(300 if ctx.tier == "thorough" else 40):
+        pm, ps = ctx.rng.randint(1, 12), ctx.rng.randint(1, 12)
+        c = 0
+        ops = []
+        for _ in range(ctx.rng.randint(1, 4)):
+            c += ctx.rng.randint(1, 2 * pm)
+            ops.append(f"t:{c}")
+        if ctx.rng.random() < 0.6:
+            ops.append(f"n:{max(0, c + ctx.rng.randint(-2 * pm, pm))}:{max(0, c + ctx.rng.randint(-2 * ps, ps))}")
+        ops.append("z")
+        for _ in range(ctx.rng.randint(2, 6)):
+            c += ctx.rng.choice([0, 1, 1, 2, pm, ps])
+            ops.append(f"t:{c}")
+        zl.append((1, pm, ps, 0, ops))
+    zo, ze = common.run_sharded(PYDRV, ["timer_emu " + fmt(c) for c in zl], env=env)
+    if ze.strip():
+        ctx.notes.append(f"timer_emu (restore points) stderr: {ze.strip()[-300:]}")
+    zo = (zo + ["MISSING"] * len(zl))[:len(zl)]
+    for case, o in zip(zl, zo):
+        ctx.evaluations += 1
+        ctx.traces += 1
+        if o.startswith("ERR") or o == "MISSING":
+            ctx.report(["emu", "error"], f"emu failed on a restore-point case: {o}", {"case": fmt(case)})
+        else:
+            oracle(ctx, "emu", case, o, check_next=True)
+            ctx.nontrivial.add("z:" + fmt(case))
+    ctx.count("machine snapshot-restore cases", len(zl))
     # WAIT on the machine: the cycle counter advances through PCE500Emulator.step -> _simulate_wait; every boundary inside the
     # WAIT must fire exactly once, on the boundary cycle (the scheduler's advance() is observed, not replaced)
     wl = []
